@@ -31,7 +31,7 @@ CONSTANTS
   Dev       \* deviations: subset of DevNames
 
 DevNames == {"FlightLeakOnAbandon", "AbandonSentOnly", "NoFwdResend", "FwdSeqBackward",
-             "PruneAllStreams", "PopNoReset", "NoT3OnRetx", "DupNotFiltered"}
+             "PruneAllStreams", "PopNoReset", "NoT3OnRetx", "DupNotFiltered", "NoPopAfterPrune"}
 
 VARIABLES snd, rcv, net, sentH, dlvH, badH, nDrop, nDup, nT3, healed, act
 
@@ -317,9 +317,18 @@ RecvFwd(r0, cum, streams) ==
   ELSE LET r1 == Absorb([r0 EXCEPT !.last = cum, !.mis = {x \in @ : x > cum}])
            fs == FwdStreams(r1, {x \in streams : (x \div 1000) \in Sids}, <<>>)
            upto == IF "PruneAllStreams" \in Dev THEN fs[1].last ELSE cum
-           r2 == [fs[1] EXCEPT !.streams = [sd \in Sids |->
-                      [@[sd] EXCEPT !.re = SelectSeq(@, LAMBDA t : t > upto)]]]
-       IN <<r2, fs[2], Sack(r2.last, r2.mis)>>
+           \* prune obsolete chunks; pruning may unblock messages queued behind them
+           RECURSIVE PruneAll(_, _, _)
+           PruneAll(r, todo, out) ==
+             IF todo = {} THEN <<r, out>>
+             ELSE LET sd == SetMin(todo)
+                      st1 == [r.streams[sd] EXCEPT !.re = SelectSeq(@, LAMBDA t : t > upto)]
+                      pm == IF "NoPopAfterPrune" \in Dev THEN [re |-> st1.re, seq |-> st1.seq, out |-> <<>>]
+                            ELSE PopMessages(st1)
+                  IN PruneAll([r EXCEPT !.streams[sd] = [re |-> pm.re, seq |-> pm.seq]], todo \ {sd}, out \o pm.out)
+           pr == PruneAll(fs[1], Sids, fs[2])
+           r2 == pr[1]
+       IN <<r2, pr[2], Sack(r2.last, r2.mis)>>
 
 -----------------------------------------------------------------------------
 Init ==
@@ -441,10 +450,13 @@ C02_NoLoss ==
 Quiescent == ~Work /\ net = {}
 C02_Drains == healed ~> Quiescent
 
-\* C06: abandoning never blocks the association and messages sent after recovery arrive:
-\* once healed and idle, the receiver has caught up with everything that was not abandoned
-C06_CaughtUp ==
-  (~Work /\ net = {} /\ healed) => rcv.last >= snd.lastSacked /\ rcv.mis = {}
+\* C06: abandoning never blocks anything: once healed and at rest (nothing to send, empty
+\* network, no timer), the receiver has caught up with the sender's advanced peer ack
+\* point and holds no stranded chunk (a complete message left in a reassembly queue is a
+\* blocked stream; fragments of abandoned messages must have been pruned)
+AtRest == ~Work /\ net = {} /\ healed /\ ~snd.t3
+C06_CaughtUp == AtRest => (rcv.last >= snd.adv /\ rcv.last >= snd.lastSacked /\ rcv.mis = {})
+C06_NoOrphans == AtRest => \A sd \in Sids : rcv.streams[sd].re = <<>>
 
 \* M-level sanity (not a property clause): the flight size is what is in flight
 FlightConsistent ==
